@@ -227,11 +227,6 @@ class Fn:
         return None
 
 
-def simplify(t):
-    """Resolve `if c then a else (if c' ... undef)`-chains only syntactically: nothing is dropped."""
-    return t
-
-
 def contains(t, tag):
     if not isinstance(t, tuple):
         return False
@@ -400,7 +395,10 @@ def gen_R(entries, src_name):
 
 # ---- back end: exact rationals ----------------------------------------------------------------------
 
-Q_ENTRIES = ["reciprocal", "abs", "absolute", "sign", "power", "clip", "unitstep"]
+# "sqrt" and "log" are translated with the PARTIAL exact primitives of PtwBaseQ.v (Qsqrt_exact: exact on
+# squares of rationals; Qlog_at1: the value 0, exact only at 1); they are used by C04 (variable-covariance
+# Gaussian) on inputs inside those sets; their derivative components (1/2)/sqrt v and 1/v are rational.
+Q_ENTRIES = ["reciprocal", "abs", "absolute", "sign", "power", "clip", "unitstep", "sqrt", "log"]
 
 
 def to_Q(t, zparams):
@@ -442,6 +440,10 @@ def to_Q(t, zparams):
         return "(Qabs %s)" % r(t[2])
     if k == "fn" and t[1] == "sign":
         return "(Qsign %s)" % r(t[2])
+    if k == "fn" and t[1] == "sqrt":
+        return "(Qsqrt_exact %s)" % r(t[2])
+    if k == "fn" and t[1] == "log":
+        return "(Qlog_at1 %s)" % r(t[2])
     if k == "mul_zparam":
         return "(inject_Z %s * %s)" % (t[1], r(t[2]))
     if k == "if":
